@@ -575,6 +575,7 @@ type sliceItem struct {
 	kind int    // 0 structural, 1 const decl, 2 definition, 3 other assert
 	sym  string // declared / defined constant
 	syms []string
+	lits []string // string-literal constants of a user axiom (not used to pull the axiom in)
 	q    bool
 }
 
@@ -605,8 +606,14 @@ func (vc *VC) sliceIndex() []sliceItem {
 			if prevDecl != "" && strings.HasPrefix(t, "(assert (= "+prevDecl+" ") {
 				it.kind, it.sym = 2, prevDecl
 			}
+			isAxiom := it.kind == 3 && strings.Contains(t, "(forall") && ufTokRE.MatchString(t)
 			for _, m := range tokRE.FindAllString(t, -1) {
 				if consts[m] && m != it.sym {
+					if isAxiom && (strings.HasPrefix(m, "strlit_") || m == "str_empty") {
+						// a user axiom mentioning a literal is not relevant just because the literal is
+						it.lits = append(it.lits, m)
+						continue
+					}
 					it.syms = append(it.syms, m)
 				}
 			}
@@ -654,29 +661,77 @@ func (vc *VC) sliceFor(o *Obl) ([]bool, map[string]bool) {
 			}
 		}
 	}
-	for len(work) > 0 {
-		s := work[len(work)-1]
-		work = work[:len(work)-1]
-		if i, ok := declOf[s]; ok {
-			keep[i] = true
-		}
-		if i, ok := defOf[s]; ok && !keep[i] {
-			keep[i] = true
-			for _, t := range items[i].syms {
-				add(t)
+	drain := func() {
+		for len(work) > 0 {
+			s := work[len(work)-1]
+			work = work[:len(work)-1]
+			if i, ok := declOf[s]; ok {
+				keep[i] = true
 			}
-		}
-		for _, i := range mention[s] {
-			if !keep[i] {
+			if i, ok := defOf[s]; ok && !keep[i] {
 				keep[i] = true
 				for _, t := range items[i].syms {
 					add(t)
+				}
+			}
+			for _, i := range mention[s] {
+				if !keep[i] {
+					keep[i] = true
+					for _, t := range items[i].syms {
+						add(t)
+					}
+				}
+			}
+		}
+	}
+	drain()
+	// user axioms (quantified facts about uninterpreted functions) are kept only when one of their
+	// functions occurs in what is kept otherwise - fixpoint over the axioms' own symbols. Leaving an
+	// assumption out is always sound.
+	var axioms []int
+	for i, it := range items {
+		if keep[i] && it.kind == 3 && len(it.syms) == 0 && strings.Contains(it.text, "(forall") && ufTokRE.MatchString(it.text) {
+			axioms = append(axioms, i)
+			keep[i] = false
+		}
+	}
+	if len(axioms) > 0 {
+		for changed := true; changed; {
+			changed = false
+			usedUF := map[string]bool{}
+			note := func(t string) {
+				for _, m := range ufTokRE.FindAllString(t, -1) {
+					usedUF[m] = true
+				}
+			}
+			note(o.Reach + " " + o.Goal + " " + strings.Join(o.Extra, " "))
+			for i, it := range items {
+				if keep[i] && !strings.HasPrefix(strings.TrimPrefix(it.text, qMark), "(declare-") {
+					note(it.text)
+				}
+			}
+			for _, i := range axioms {
+				if keep[i] {
+					continue
+				}
+				for _, m := range ufTokRE.FindAllString(items[i].text, -1) {
+					if usedUF[m] {
+						keep[i] = true
+						changed = true
+						for _, l := range items[i].lits {
+							add(l)
+						}
+						drain()
+						break
+					}
 				}
 			}
 		}
 	}
 	return keep, rel
 }
+
+var ufTokRE = regexp.MustCompile(`\buf_\w+`)
 
 // script builds the SMT-LIB text for one obligation.
 func (vc *VC) script(o *Obl) string {
